@@ -13,6 +13,23 @@ COMMON_NOTE = ('Trusted: Coq 8.16.1 kernel (full .vo builds, vm_compute for fini
                'harness and oracles. Axioms: see Print Assumptions output copied into the evidence file.')
 
 CLAIMED = {
+    'C16': dict(
+        text='Theorems C16_strip (for EVERY sdoc stream, style and colour strings, dropping the styling chunks of what '
+             'colored_render_to_stream writes gives exactly default_render: induction over the line structure), '
+             'C16_innermost (every fragment is written while the terminal state - the last absolute styling string - is '
+             'the style of the innermost enclosing syntax-token annotation, restored when an inner token ends, '
+             'unaffected by non-token annotations; final state reset; the specification [innermost] is the bracket '
+             'structure of the stream, independent of the renderer), C16_table_total / C16_table_tokens_exist (finite, '
+             'regenerated: every Token the printer modules mention has a pygments mapping), C16_modifiers_exist / '
+             'C16_accessors_valid (finite, regenerated from color.py and the installed colorful: every modifier looked '
+             'up exists and the accessor built for each colour/background combination is one of colorful\'s forms). '
+             'Tie: bytes written under every installed pygments style (colours forced on) vs the model instantiated '
+             'with the tabulated colour strings, for values and for documents with nested token / non-token '
+             'annotations; oracle: independent SGR interpreter.',
+        design='5.7 C16', technique='Coq proofs (stack/line-structure induction; finite regenerated tables by vm_compute) + byte-exact differential correspondence + SGR-decoder oracle',
+        note=COMMON_NOTE + ' Oracles, not modelled: pygments style_for_token and the escape strings colorful produces '
+             '(assumed absolute, i.e. starting with the reset sequence - checked for every style by the run). The '
+             'global colorful palette mutated per token is outside the property.'),
     'C17': dict(
         text='Theorems C17_denotes / C17_call_shape / C17_performs_the_call (denotation lemma and evaluation round trip '
              'instantiated at pretty_call objects: qualified name, positional arguments in order, keywords in the order '
